@@ -21,7 +21,9 @@
 (*   "pair"   two bin centres <<c, c+d>>, c from Starts, d in 1..DMax -- anywhere between native points; the clip  *)
 (*            Grid!GClipIdx keeps the points in [c - d, c + 2d]                                                    *)
 (*   "range"  the native points a .. a+k themselves, a from RStarts (the clip adds one point on each side)         *)
-(* Requests whose clip is empty (refused) or the whole grid are left to GridHistory.tla.                           *)
+(* Requests whose clip is empty (refused) or the whole grid are left to GridHistory.tla.  A request with no native *)
+(* point inside the observation's own range (ilo = 0) lives on the documented margin W alone, which the statement  *)
+(* does not prescribe: the binding does not judge it when the implementation refuses it.                           *)
 EXTENDS Grid
 CONSTANTS N,        \* native points
           Step,     \* native spacing (integer coordinates)
